@@ -7,4 +7,5 @@ CONSTANTS
   MaxLen = 4
   CtxMax = 1
   WithPlans = FALSE
+  WithCrlf = TRUE
 INVARIANT Emitted
